@@ -139,7 +139,18 @@ def main(path):
     # mirror the modular cuts of the proof natively: callees replaced by a contract in the proof are stubbed
     # here (pure callees return the value the solver chose; cascades append the record and stop)
     restore = []
-    for qual, values in (model.get('pure_callee_results') or {}).items():
+    pcr = dict(model.get('pure_callee_results') or {})
+    rk, ur = pcr.pop('pokerkit.utilities.rake#raked', None), pcr.pop('pokerkit.utilities.rake#unraked', None)
+    if rk is not None and state is not None:
+        # the proof used the CONTRACT of State.rake (any conforming rake function): replay with the values the solver chose
+        pairs = [(build(a), build(b)) for a, b in zip(rk, ur)]
+
+        def rake_stub(amount, st=None, _p=pairs, _i=[0]):
+            v = _p[min(_i[0], len(_p) - 1)]
+            _i[0] += 1
+            return v if sum(v) == amount else (0, amount)
+        state.rake = rake_stub
+    for qual, values in pcr.items():
         owner = resolve(qual.rsplit('.', 1)[0]); name = qual.rsplit('.', 1)[1]
         orig = owner.__dict__[name]
         vals = [build(v) for v in values]
